@@ -1,6 +1,7 @@
 import EventppVerif.CL.Machine
 import Driver.QDriver
 import Driver.UtilDriver
+import Driver.ConcDriver
 import EventppVerif.Util.Wrappers
 import EventppVerif.Util.Removers
 /-
@@ -249,6 +250,9 @@ def main (args : List String) : IO Unit := do
     return
   if mode = "anyid" then
     UD.anyidMain lines
+    return
+  if mode = "conc" then
+    CD.main lines
     return
   if mode = "rem" then
     remMain lines
